@@ -1,7 +1,7 @@
 (** Correspondence check for C20, evaluated by [vm_compute] on the cases the Go
     harness wrote (outputs of the real logger / formatters next to their inputs). *)
 From Coq Require Import String List NArith ZArith Bool.
-From Fabio Require Import Lib.Outcome Lib.Bytes Lib.Verdict Model.Logger Model.LoggerServe.
+From Fabio Require Import Lib.Outcome Lib.Bytes Lib.Verdict Model.Logger Model.LoggerServe Model.LoggerSink.
 Import ListNotations.
 Local Open Scope N_scope.
 
@@ -49,7 +49,15 @@ Inductive case :=
    UpstreamAddr, UpstreamService, UpstreamURL), RequestURL.String() (net/url, data) and the line the
    real logger renders from that Event for [request_format] (every $request_* field) *)
 | CServe (r : inreq) (o : ropt) (obs : served) (urlstr : str) (line : outcome str)
-| CLog (format : str) (e : event) (impl : outcome str) (nwrites : N) (ref : option str).
+| CLog (format : str) (e : event) (impl : outcome str) (nwrites : N) (ref : option str)
+(* several Log calls through ONE real logger whose writer takes every Write in pieces
+   (sizes [cuts], the rest of the line last) and lets the harness decide who moves next:
+   [lines] = the events' lines (each event is also a CLog case of class sink-event),
+   [trace] = every step in the order it happened on the real code, with whether it did
+   something: a call that was started and found parked in mu.Lock() / a call that was
+   asked to move while parked = (t, false); a call that entered Write, had its next piece
+   appended, returned from Log = (t, true); [sink] = every byte the writer received *)
+| CSink (lines : list str) (cuts : list (list nat)) (trace : list (nat * bool)) (sink : str).
 
 Definition atoi_domain (i pad : Z) : bool := int64_ok i && (pad <=? 127)%Z.
 
@@ -142,4 +150,12 @@ Definition check_case (c : case) : N :=
                             && match ref with Some r => beq s r | None => true end
                   end in
       verdict same spec None (match m with Ok (_ :: _) => true | _ => false end)
+  | CSink lines cuts trace sink =>
+      let '(st, flags) := sink_run Exclusive (sink_init (carve_all cuts lines)) (map fst trace) in
+      let same := list_eqb Bool.eqb flags (map snd trace) && beq (sk_sink st) sink && all_done st in
+      (* every event's line is in the log, whole, exactly once (Proofs/LoggerSink.v:
+         whole_lines_iff) *)
+      let spec := whole_lines sink lines in
+      (* non-trivial: some call found the logger busy *)
+      verdict same spec None (existsb (fun x => negb (snd x)) trace)
   end.
